@@ -540,24 +540,75 @@ Proof.
   destruct (Nat.eqb i 0) eqn:E; [apply PeanoNat.Nat.eqb_eq in E; congruence|]. cbn [app ev_hdr]. now apply IH.
 Qed.
 
-Theorem relay_transparent ci :
-  let sc := ci_script ci in
-  let (b, c) := relay ci in
-  bv_method b = ci_method ci /\ bv_md b = ci_md ci /\
-  (sc_mode sc <> 2 -> bv_msgs b = ci_msgs ci) /\
-  cv_msgs c = sc_msgs sc /\ cv_trl c = sc_trl sc /\ cv_code c = sc_code sc /\
-  (sc_code sc <> 0 -> cv_msg c = sc_msg sc) /\
-  (sc_msgs sc <> [] -> cv_hdr c = sc_hdr sc) /\
-  (sc_msgs sc = [] -> cv_hdr c = []).
+(* The property's transparency clause, stated on what the two ends see, without the relay's
+   mechanism (no forwarding loops, no header hack, no metadata copy):
+   - frames: per direction the sequence that arrives is the sequence that was sent (the backend
+     has the requests it chose to read, a prefix; all of them unless it fails without reading);
+   - metadata: every custom (non-reserved) key arrives with the same values in the same order,
+     and nothing arrives that was not sent; the same for trailers, and for headers whenever
+     the backend sends at least one message;
+   - the status code arrives as it is, and so does the message of every non-OK status. *)
+Definition md_same_on (keep : str -> bool) (got sent : md) : Prop :=
+  (forall k, keep k = true -> assoc k got = assoc k sent) /\
+  (forall k, assoc k got <> None -> keep k = true /\ assoc k sent <> None).
+Record transparent (ci : callin) (b : bview) (c : cview) : Prop := {
+  tr_method : bv_method b = ci_method ci;
+  tr_req_prefix : exists rest, ci_msgs ci = bv_msgs b ++ rest;
+  tr_req_all : sc_mode (ci_script ci) <> 2 -> bv_msgs b = ci_msgs ci;
+  tr_md : md_same_on (fun k => negb (reserved k)) (bv_md b) (ci_md ci);
+  tr_resp : cv_msgs c = sc_msgs (ci_script ci);
+  tr_trailers : md_same_on (fun _ => true) (cv_trl c) (sc_trl (ci_script ci));
+  tr_headers : sc_msgs (ci_script ci) <> [] -> md_same_on (fun _ => true) (cv_hdr c) (sc_hdr (ci_script ci));
+  tr_code : cv_code c = sc_code (ci_script ci);
+  tr_msg : sc_code (ci_script ci) <> 0 -> cv_msg c = sc_msg (ci_script ci)
+}.
+
+Lemma bev_msgs_fwd msgs : bev_msgs (fwd_s2c msgs) = msgs.
+Proof. induction msgs as [|m r IH]; cbn [fwd_s2c bev_msgs]; [reflexivity | now rewrite IH]. Qed.
+
+Lemma assoc_md_out k (m : md) : assoc k (md_out m) = if reserved k then None else assoc k m.
 Proof.
-  unfold relay. cbn [bv_method bv_md bv_msgs cv_hdr cv_msgs cv_trl cv_code cv_msg].
-  repeat split.
-  - intros H. unfold backend_reads. destruct (sc_mode (ci_script ci) =? 2) eqn:E; [apply N.eqb_eq in E; congruence | reflexivity].
-  - apply ev_msgs_fwd.
-  - intros H. destruct (sc_code (ci_script ci) =? 0) eqn:E; [apply N.eqb_eq in E; congruence | reflexivity].
-  - intros H. destruct (sc_msgs (ci_script ci)) as [|m r]; [congruence | reflexivity].
-  - intros ->. reflexivity.
+  unfold md_out. induction m as [|[k' v] m IH]; cbn [filter fst]; [now destruct (reserved k)|].
+  destruct (reserved k') eqn:R; cbn [negb assoc].
+  - rewrite IH. destruct (beq k k') eqn:E; [apply beq_eq in E; subst; now rewrite R | reflexivity].
+  - rewrite IH. destruct (beq k k') eqn:E; [apply beq_eq in E; subst; now rewrite R | reflexivity].
 Qed.
+
+Lemma md_same_refl m : md_same_on (fun _ => true) m m.
+Proof. split; [reflexivity | intros k H; tauto]. Qed.
+
+(* MODELLED-NOT-VERIFIED: the relay is mwitkow/grpc-proxy + grpc-go; the model's relay
+   (forwarding loops frame by frame, header sent before the first message, metadata copied and
+   filtered by the client transport, status returned as received) meets the property's clause *)
+Theorem relay_transparent ci : transparent ci (fst (relay ci)) (snd (relay ci)).
+Proof.
+  unfold relay. cbn [fst snd]. constructor; cbn [bv_method bv_md bv_msgs cv_hdr cv_msgs cv_trl cv_code cv_msg].
+  - reflexivity.
+  - unfold backend_reads. rewrite bev_msgs_fwd. destruct (sc_mode (ci_script ci) =? 2);
+      [exists (ci_msgs ci); reflexivity | exists []; now rewrite app_nil_r].
+  - intros H. unfold backend_reads. rewrite bev_msgs_fwd.
+    destruct (sc_mode (ci_script ci) =? 2) eqn:E; [apply N.eqb_eq in E; congruence | reflexivity].
+  - split.
+    + intros k H. rewrite assoc_md_out. apply negb_true_iff in H. now rewrite H.
+    + intros k H. rewrite assoc_md_out in H. destruct (reserved k); [congruence | tauto].
+  - apply ev_msgs_fwd.
+  - apply md_same_refl.
+  - intros H. destruct (sc_msgs (ci_script ci)) as [|m r]; [congruence|]. cbn [fwd_c2s Nat.eqb app ev_hdr]. apply md_same_refl.
+  - unfold final_status. destruct (sc_code (ci_script ci) =? 0) eqn:E; [apply N.eqb_eq in E; now rewrite E | reflexivity].
+  - intros H. unfold final_status. destruct (sc_code (ci_script ci) =? 0) eqn:E; [apply N.eqb_eq in E; congruence | reflexivity].
+Qed.
+
+(* the mechanism the property's wording allows for: without a message from the backend its
+   headers are not forwarded (handler.go sends them just before the first message) *)
+Lemma relay_no_message_no_header ci : sc_msgs (ci_script ci) = [] -> cv_hdr (snd (relay ci)) = [].
+Proof. unfold relay. cbn [snd cv_hdr]. now intros ->. Qed.
+
+Example relay_transparent_nonvacuous :
+  let ci := mkcallin [(bs "user-agent", [bs "x"]); (bs "k", [bs "1"; bs "2"])] (bs "/p.S/M") (Some (bs "/p.S/M"))
+                     [bs "a"; bs "b"] (mkscript 0 [(bs "h", [bs "v"])] [bs "r"] [(bs "t", [[]])] 5 (bs "gone")) in
+  bv_md (fst (relay ci)) = [(bs "k", [bs "1"; bs "2"])] /\ bv_msgs (fst (relay ci)) = [bs "a"; bs "b"] /\
+  snd (relay ci) = mkcview [(bs "h", [bs "v"])] [bs "r"] [(bs "t", [[]])] 5 (bs "gone").
+Proof. vm_compute. repeat split. Qed.
 
 (* ---- no connection is lost in sequential histories ---- *)
 Definition accounted (s : pstate) : Prop :=
@@ -1038,4 +1089,359 @@ Proof.
   unfold p_set_if_absent. cbn [p_pool p_next p_shut p_dials assoc]. rewrite beq_refl.
   change (negb (0 =? 1) && negb (memN 0 [])) with true. cbn [fst snd p_pool p_shut].
   repeat split. unfold count_dials. cbn [p_dials filter snd]. rewrite beq_refl. reflexivity.
+Qed.
+
+(* ---- the history machine of the theorems is the pool machine of the correspondence run ---- *)
+Definition op_pops (ng : bool) (s : state) (o : op) : list pop :=
+  match o with
+  | Call m p k => match lookup (s_tbl s) ng (dsthost m) p with
+                  | Some ts => match nth_error ts k with Some u => [PGet u] | None => [] end
+                  | None => []
+                  end
+  | SetTable t => [PSetTable (table_urls t)]
+  | CleanupTick => [PTick]
+  | ConnShutdown u => [PShutdown u]
+  end.
+Fixpoint run_pops (ng : bool) (s : state) (ops : list op) : list pop :=
+  match ops with
+  | [] => []
+  | o :: r => op_pops ng s o ++ run_pops ng (step ng s o) r
+  end.
+Definition abs_state (s : state) : list url * pstate := (table_urls (s_tbl s), s_pool s).
+
+Lemma step_sim ng s o : abs_state (step ng s o) = p_run (abs_state s) (op_pops ng s o).
+Proof.
+  unfold abs_state. destruct o as [m p k|t| |u]; cbn [step op_pops].
+  - destruct (lookup (s_tbl s) ng (dsthost m) p) as [ts|]; [|reflexivity].
+    destruct (nth_error ts k) as [u|]; reflexivity.
+  - reflexivity.
+  - reflexivity.
+  - reflexivity.
+Qed.
+
+(* every history of calls, table changes, ticks and shutdowns acts on the pool exactly as the
+   sequence of Get / SetTable / tick / shutdown operations it resolves to: the pool operations
+   the correspondence run executes on the real pool (CPool) and on the real proxy (CHistory) *)
+Theorem run_sim ng ops : forall s, abs_state (run ng s ops) = p_run (abs_state s) (run_pops ng s ops).
+Proof.
+  induction ops as [|o r IH]; intros s; cbn [run fold_left run_pops]; [reflexivity|].
+  unfold p_run. rewrite fold_left_app. fold (p_run (abs_state s) (op_pops ng s o)).
+  rewrite <- step_sim. apply IH.
+Qed.
+
+(* ---- callers for several targets, with cleanup ticks, table changes and shutdowns in between ---- *)
+Definition mpend1 (t : url * gpc) : list (N * url) := match snd t with GSet c => [(c, fst t)] | _ => [] end.
+Definition mpend (ths : list (url * gpc)) : list (N * url) := flat_map mpend1 ths.
+Lemma mpend_mid l1 t l2 : mpend (l1 ++ t :: l2) = mpend l1 ++ mpend1 t ++ mpend l2.
+Proof. unfold mpend. rewrite flat_map_app. reflexivity. Qed.
+
+Record minv (s : pstate) (ths : list (url * gpc)) : Prop := {
+  mi_wf : wf s;
+  mi_lt : forall c u, In (c, u) (mpend ths) -> c < p_next s;
+  mi_nodup : NoDup (map fst (mpend ths));
+  mi_live : forall c u, In (c, u) (mpend ths) -> ~ In c (p_shut s);
+  mi_unpooled : forall c u k, In (c, u) (mpend ths) -> ~ In (k, c) (p_pool s);
+  mi_for : forall c u v, In (c, u) (mpend ths) -> In (c, v) (p_dials s) -> v = u;
+  mi_acc : forall c v, In (c, v) (p_dials s) ->
+             memN c (p_shut s) = true \/ In (v, c) (p_pool s) \/ In c (map fst (mpend ths))
+}.
+
+Lemma minv_same s l1 t t1 l2 : mpend1 t = [] -> mpend1 t1 = [] -> minv s (l1 ++ t :: l2) -> minv s (l1 ++ t1 :: l2).
+Proof. intros E E1 [W Lt Nd Lv Up Fu Acc]. rewrite mpend_mid, E in *. constructor; rewrite ?mpend_mid, ?E1; auto. Qed.
+
+Lemma minv_dial s u l1 l2 :
+  minv s (l1 ++ (u, GDial) :: l2) -> minv (fst (p_log_dial s u)) (l1 ++ (u, GSet (p_next s)) :: l2).
+Proof.
+  intros [W Lt Nd Lv Up Fu Acc]. rewrite mpend_mid in *. unfold mpend1 in *. cbn [snd fst app] in *.
+  unfold p_log_dial. cbn [fst].
+  constructor; cbn [p_pool p_next p_shut p_dials]; rewrite ?mpend_mid; unfold mpend1; cbn [snd fst app].
+  - destruct W as [H1 H2 H3 H4 H5]. constructor; cbn [p_pool p_next p_shut p_dials]; auto.
+    + intros k c H. apply H1 in H. lia.
+    + intros c H. apply H2 in H. lia.
+    + intros c v H. apply in_app_or in H. destruct H as [H|[H|[]]]; [apply H5 in H; lia | inversion H; lia].
+  - intros c v H. apply in_app_or in H. destruct H as [H|[H|H]]; [|inversion H; lia|];
+      (assert (c < p_next s) by (apply (Lt c v); apply in_or_app; tauto); lia).
+  - rewrite map_app. cbn [map fst]. apply NoDup_middle_insert; [|now rewrite <- map_app].
+    rewrite <- map_app. intros H. apply in_map_iff in H. destruct H as [[c v] [E H]]. cbn in E; subst c. apply Lt in H. lia.
+  - intros c v H. apply in_app_or in H. destruct H as [H|[H|H]].
+    + apply (Lv c v). apply in_or_app. tauto.
+    + inversion H; subst. intros X. apply (wf_shut s W) in X. lia.
+    + apply (Lv c v). apply in_or_app. tauto.
+  - intros c v k H. apply in_app_or in H. destruct H as [H|[H|H]].
+    + apply (Up c v). apply in_or_app. tauto.
+    + inversion H; subst. intros X. apply (wf_pool s W) in X. lia.
+    + apply (Up c v). apply in_or_app. tauto.
+  - intros c v v' H D. apply in_app_or in D. destruct D as [D|[D|[]]].
+    + apply in_app_or in H. destruct H as [H|[H|H]].
+      * apply (Fu c v v'); [apply in_or_app; tauto | exact D].
+      * inversion H; subst. apply (wf_dials s W) in D. lia.
+      * apply (Fu c v v'); [apply in_or_app; tauto | exact D].
+    + inversion D; subst. apply in_app_or in H. destruct H as [H|[H|H]].
+      * assert (p_next s < p_next s) by (apply (Lt _ v); apply in_or_app; now left). lia.
+      * now inversion H.
+      * assert (p_next s < p_next s) by (apply (Lt _ v); apply in_or_app; now right). lia.
+  - intros c v H. apply in_app_or in H. destruct H as [H|[H|[]]].
+    + destruct (Acc c v H) as [A|[A|A]]; auto. right. right.
+      rewrite map_app in *. cbn [map fst]. apply in_app_or in A. apply in_or_app. destruct A; [now left | right; now right].
+    + inversion H; subst. right. right. rewrite map_app. cbn [map fst]. apply in_or_app. right. now left.
+Qed.
+
+Lemma minv_set s u l1 c l2 :
+  minv s (l1 ++ (u, GSet c) :: l2) ->
+  minv (fst (p_set_if_absent s u c)) (l1 ++ (u, GDone (snd (p_set_if_absent s u c))) :: l2) /\
+  holds (fst (p_set_if_absent s u c)) u (snd (p_set_if_absent s u c)).
+Proof.
+  intros [W Lt Nd Lv Up Fu Acc]. rewrite mpend_mid in *. unfold mpend1 in *. cbn [snd fst app] in *.
+  assert (Cin : In (c, u) (mpend l1 ++ (c, u) :: mpend l2)) by (apply in_or_app; right; now left).
+  pose proof (Lt c u Cin) as Clt. pose proof (Lv c u Cin) as Clive. pose proof (Up c u) as Cup.
+  rewrite map_app in Nd. cbn [map fst] in Nd.
+  assert (Others : forall c' v, In (c', v) (mpend l1 ++ mpend l2) -> c' <> c /\ In (c', v) (mpend l1 ++ (c, u) :: mpend l2)).
+  { intros c' v H. split.
+    - intros ->. apply NoDup_remove_2 in Nd. apply Nd. rewrite <- map_app. change c with (fst (c, v)). now apply in_map.
+    - apply in_app_or in H. apply in_or_app. destruct H; [now left | right; now right]. }
+  assert (Nd' : NoDup (map fst (mpend l1 ++ mpend l2))) by (rewrite map_app; now apply NoDup_remove_1 in Nd).
+  assert (Cases : (exists cur, assoc u (p_pool s) = Some cur /\ cur <> c /\ memN cur (p_shut s) = false /\
+                     p_set_if_absent s u c = (mkp (p_pool s) (p_next s) (c :: p_shut s) (p_dials s), cur)) \/
+                  ((forall cur, assoc u (p_pool s) = Some cur -> memN cur (p_shut s) = true) /\
+                     p_set_if_absent s u c = (mkp ((u, c) :: remove_key u (p_pool s)) (p_next s) (p_shut s) (p_dials s), c))).
+  { unfold p_set_if_absent. destruct (assoc u (p_pool s)) as [cur|] eqn:E.
+    - destruct (negb (cur =? c) && negb (memN cur (p_shut s))) eqn:B.
+      + left. apply andb_true_iff in B. destruct B as [B1 B2]. apply negb_true_iff in B1, B2. apply N.eqb_neq in B1.
+        exists cur. tauto.
+      + right. split; [|reflexivity]. intros cur' Hc. inversion Hc; subst cur'.
+        apply andb_false_iff in B. destruct B as [B|B]; apply negb_false_iff in B; [|exact B].
+        apply N.eqb_eq in B. subst cur. exfalso. apply assoc_In in E. now apply (Cup u Cin).
+    - right. split; [discriminate | reflexivity]. }
+  destruct Cases as [[cur [E [B1 [B2 R]]]]|[Dead R]]; rewrite R; cbn [fst snd]; split.
+  - constructor; cbn [p_pool p_next p_shut p_dials]; rewrite ?mpend_mid; unfold mpend1; cbn [snd fst app].
+    + destruct W as [H1 H2 H3 H4 H5]. constructor; cbn [p_pool p_next p_shut p_dials]; auto.
+      intros c' [H|H]; [subst; exact Clt | now apply H2].
+    + intros c' v H. apply (Lt c' v). now apply Others.
+    + exact Nd'.
+    + intros c' v H [X|X]; apply Others in H; destruct H as [H1 H2]; [congruence | now apply (Lv c' v)].
+    + intros c' v k H. apply (Up c' v). now apply Others.
+    + intros c' v v' H. apply (Fu c' v v'). now apply Others.
+    + intros c' v H. destruct (Acc c' v H) as [A|[A|A]].
+      * left. unfold memN. cbn [existsb]. fold (memN c' (p_shut s)). rewrite A. apply orb_true_r.
+      * right. now left.
+      * rewrite map_app in A. cbn [map fst] in A. apply in_app_or in A. destruct A as [A|[A|A]].
+        -- right. right. rewrite map_app. apply in_or_app. now left.
+        -- subst. left. unfold memN. cbn [existsb]. now rewrite N.eqb_refl.
+        -- right. right. rewrite map_app. apply in_or_app. now right.
+  - split; cbn [p_pool]; [exact E|]. unfold live, memN. cbn [p_shut existsb]. fold (memN cur (p_shut s)).
+    rewrite B2. rewrite orb_false_r. apply negb_true_iff. apply N.eqb_neq. congruence.
+  - constructor; cbn [p_pool p_next p_shut p_dials]; rewrite ?mpend_mid; unfold mpend1; cbn [snd fst app].
+    + destruct W as [H1 H2 H3 H4 H5]. constructor; cbn [p_pool p_next p_shut p_dials]; auto.
+      * intros k c' [H|H]; [inversion H; subst; exact Clt|]. apply remove_key_In in H. destruct H as [H _]. now apply H1 in H.
+      * cbn [map fst]. constructor; [|now apply remove_key_nodup_fst].
+        intros H. apply in_map_iff in H. destruct H as [[k c'] [Ek H]]. cbn in Ek; subst. apply remove_key_In in H. tauto.
+      * cbn [map snd]. constructor; [|now apply remove_key_nodup_snd].
+        intros H. apply in_map_iff in H. destruct H as [[k c'] [Ek H]]. cbn in Ek; subst. apply remove_key_In in H.
+        destruct H as [H _]. now apply (Cup k Cin).
+    + intros c' v H. apply (Lt c' v). now apply Others.
+    + exact Nd'.
+    + intros c' v H. apply (Lv c' v). now apply Others.
+    + intros c' v k H [X|X]; [inversion X; subst; apply Others in H; destruct H; congruence|].
+      apply remove_key_In in X. destruct X as [X _]. apply Others in H. destruct H as [_ H]. now apply (Up c' v k H).
+    + intros c' v v' H. apply (Fu c' v v'). now apply Others.
+    + intros c' v H. destruct (Acc c' v H) as [A|[A|A]].
+      * now left.
+      * destruct (list_eq_dec N.eq_dec v u) as [->|Nq].
+        -- left. apply Dead. now apply In_assoc_nodup; [apply (wf_keys s W)|].
+        -- right. left. right. apply remove_key_In. tauto.
+      * rewrite map_app in A. cbn [map fst] in A. apply in_app_or in A. destruct A as [A|[A|A]].
+        -- right. right. rewrite map_app. apply in_or_app. now left.
+        -- subst c'. right. left. left. rewrite (Fu c u v Cin H). reflexivity.
+        -- right. right. rewrite map_app. apply in_or_app. now right.
+  - split; cbn [p_pool assoc]; [now rewrite beq_refl|].
+    unfold live. cbn [p_shut]. destruct (memN c (p_shut s)) eqn:M; [apply memN_In in M; contradiction | reflexivity].
+Qed.
+
+(* the environment: what a tick closes or a shutdown hits is pooled, never a pending connection *)
+Lemma minv_tick urls s ths : minv s ths -> minv (p_tick urls s) ths.
+Proof.
+  intros [W Lt Nd Lv Up Fu Acc]. constructor; auto.
+  - now apply wf_tick.
+  - intros c u H X. unfold p_tick in X. cbn [p_shut] in X. apply in_app_or in X. destruct X as [X|X]; [now apply (Lv c u)|].
+    apply in_map_iff in X. destruct X as [[k c'] [E X]]. cbn in E; subst. apply filter_In in X. now apply (Up c u k H).
+  - intros c u k H X. unfold p_tick in X. cbn [p_pool] in X. apply filter_In in X. now apply (Up c u k H).
+  - intros c v H. unfold p_tick. cbn [p_shut p_pool p_dials] in *. rewrite memN_app.
+    destruct (Acc c v H) as [A|[A|A]]; [left; now rewrite A | | tauto].
+    destruct (memN c (p_shut s)) eqn:M; [now left|]. cbn [orb].
+    destruct (mem v urls) eqn:Hu.
+    + right. left. apply filter_In. split; [exact A|]. cbn [fst snd]. unfold live. now rewrite M, Hu.
+    + left. apply memN_In. apply in_map_iff. exists (v, c). split; [reflexivity|]. apply filter_In.
+      split; [exact A|]. cbn [fst snd]. unfold live. now rewrite M, Hu.
+Qed.
+Lemma minv_shutdown s u ths : minv s ths -> minv (p_shutdown s u) ths.
+Proof.
+  intros [W Lt Nd Lv Up Fu Acc]. unfold p_shutdown. destruct (assoc u (p_pool s)) as [c0|] eqn:E; [|constructor; auto].
+  constructor; cbn [p_pool p_next p_shut p_dials]; auto.
+  - pose proof (wf_shutdown s u W) as W'. unfold p_shutdown in W'. now rewrite E in W'.
+  - intros c v H [X|X]; [subst; apply assoc_In in E; now apply (Up c v u H) | now apply (Lv c v)].
+  - intros c v H. destruct (Acc c v H) as [A|[A|A]]; [left | tauto | tauto].
+    unfold memN. cbn [existsb]. fold (memN c (p_shut s)). rewrite A. apply orb_true_r.
+Qed.
+
+Lemma mstep_inv st a : minv (snd (fst st)) (snd st) -> minv (snd (fst (mstep st a))) (snd (mstep st a)).
+Proof.
+  destruct st as [[urls s] ths]. cbn [fst snd]. intros I. destruct a as [i|t|t|u]; cbn [mstep].
+  - unfold mstep_at. destruct (nth_error ths i) as [[u p]|] eqn:E; [|exact I].
+    destruct (nth_error_split ths i E) as [l1 [l2 [-> Hl]]].
+    assert (F1 : firstn i (l1 ++ (u, p) :: l2) = l1).
+    { subst i. rewrite firstn_app, PeanoNat.Nat.sub_diag, firstn_all. cbn [firstn]. apply app_nil_r. }
+    assert (F2 : skipn (S i) (l1 ++ (u, p) :: l2) = l2).
+    { subst i. rewrite skipn_app. replace (S (List.length l1) - List.length l1)%nat with 1%nat by lia.
+      rewrite skipn_all2 by lia. reflexivity. }
+    destruct p as [| |c|c]; cbn [gstep].
+    + cbn [fst snd]. rewrite F1, F2. apply (minv_same s l1 (u, GRead) _ l2); [reflexivity | | exact I].
+      unfold mpend1. cbn [snd]. destruct (assoc u (p_pool s)) as [c0|]; [destruct (live s c0)|]; reflexivity.
+    + unfold p_log_dial at 1. cbn [fst snd]. rewrite F1, F2. apply (minv_dial s u l1 l2 I).
+    + destruct (p_set_if_absent s u c) as [s2 r] eqn:R. cbn [fst snd]. rewrite F1, F2.
+      pose proof (minv_set s u l1 c l2 I) as H. rewrite R in H. exact (proj1 H).
+    + cbn [fst snd]. rewrite F1, F2. exact I.
+  - cbn [fst snd]. now apply minv_tick.
+  - exact I.
+  - cbn [fst snd]. now apply minv_shutdown.
+Qed.
+Lemma mrun_inv sched : forall st, minv (snd (fst st)) (snd st) -> minv (snd (fst (mrun st sched))) (snd (mrun st sched)).
+Proof.
+  induction sched as [|a r IH]; intros st I; cbn [mrun fold_left]; [exact I|]. apply IH. now apply mstep_inv.
+Qed.
+
+Lemma mpend_start us : mpend (map (fun u => (u, GRead)) us) = [].
+Proof. induction us as [|u us IH]; [reflexivity | exact IH]. Qed.
+Lemma mpend_all_done ths : forallb (fun t => g_done (snd t)) ths = true -> mpend ths = [].
+Proof.
+  induction ths as [|[u p] ths IH]; [reflexivity|]. cbn [forallb snd]. intros H. apply andb_true_iff in H. destruct H as [H1 H2].
+  unfold mpend. cbn [flat_map]. fold (mpend ths). rewrite (IH H2). destruct p; try discriminate. reflexivity.
+Qed.
+
+(* For EVERY schedule of concurrent Gets for ANY targets interleaved with cleanup ticks, table
+   changes and connection shutdowns, from any well-formed state without orphans: the state
+   stays well-formed, and whenever all callers have finished every connection ever dialled is
+   pooled or closed.  (Which connection a caller was handed: [concurrent_get_result].) *)
+Theorem concurrent_gets_no_orphans sched urls s targets :
+  wf s -> accounted s ->
+  let st' := mrun (urls, s, map (fun u => (u, GRead)) targets) sched in
+  wf (snd (fst st')) /\
+  (forallb (fun t => g_done (snd t)) (snd st') = true ->
+   accounted (snd (fst st')) /\ forall c, orphan (snd (fst st')) c = false).
+Proof.
+  intros W A st'.
+  assert (I0 : minv s (map (fun u => (u, GRead)) targets)).
+  { constructor; rewrite ?mpend_start; auto; try (intros; contradiction).
+    - constructor.
+    - intros c v H. destruct (A c v H) as [X|X]; [now left | right; now left]. }
+  pose proof (mrun_inv sched (urls, s, map (fun u => (u, GRead)) targets) I0) as I. fold st' in I.
+  destruct I as [W' Lt Nd Lv Up Fu Acc]. split; [exact W'|]. intros D.
+  rewrite (mpend_all_done _ D) in Acc.
+  assert (A' : accounted (snd (fst st'))).
+  { intros c v H. destruct (Acc c v H) as [X|[X|[]]]; auto. }
+  split; [exact A'|]. intros c. set (s' := snd (fst st')) in *.
+  unfold orphan. destruct (existsb (fun d => fst d =? c) (p_dials s')) eqn:E; [|reflexivity]. cbn [andb].
+  apply existsb_exists in E. destruct E as [[c' v] [Hin E]]. cbn [fst] in E. apply N.eqb_eq in E. subst c'.
+  destruct (A' c v Hin) as [S|P].
+  - unfold live. rewrite S. reflexivity.
+  - destruct (live s' c); [|reflexivity]. cbn [andb]. apply negb_false_iff. apply existsb_exists.
+    exists (v, c). split; [exact P | apply N.eqb_refl].
+Qed.
+
+(* at the step at which a caller finishes, what it is handed is the live connection pooled for
+   its target at that moment (a later tick or shutdown may of course close it) *)
+Theorem concurrent_get_result s l1 u p l2 c :
+  minv s (l1 ++ (u, p) :: l2) -> g_done p = false -> snd (gstep s u p) = GDone c ->
+  holds (fst (gstep s u p)) u c.
+Proof.
+  intros I Hp. destruct p as [| |c0|c0]; cbn [gstep g_done] in *; try discriminate.
+  - cbn [fst snd]. destruct (assoc u (p_pool s)) as [c1|] eqn:E; [destruct (live s c1) eqn:L|]; try discriminate.
+    intros H; inversion H; subst. split; assumption.
+  - destruct (p_set_if_absent s u c0) as [s2 r] eqn:R. cbn [fst snd]. intros H; inversion H; subst.
+    pose proof (minv_set s u l1 c0 l2 I) as [_ Hh]. rewrite R in Hh. exact Hh.
+Qed.
+
+(* two callers for a (both miss, both dial), one for b, a table change that drops a, a tick
+   and a shutdown in between: connection 1 (a's second dial) is closed by setIfAbsent, 0 by the
+   tick, 2 by the shutdown; nothing is orphaned *)
+Example concurrent_multi_nonvacuous :
+  let a := [97] in let b := [98] in
+  let st := mrun ([a; b], p_init, [(a, GRead); (a, GRead); (b, GRead)])
+                 [MThread 0; MThread 1; MThread 2; MThread 0; MThread 1; MThread 2; MThread 0; MSetTable [b];
+                  MThread 1; MTick; MThread 2; MShutdown b]%nat in
+  snd st = [(a, GDone 0); (a, GDone 0); (b, GDone 2)] /\
+  p_pool (snd (fst st)) = [(b, 2)] /\ p_shut (snd (fst st)) = [2; 1; 0] /\
+  forallb (fun t => g_done (snd t)) (snd st) = true.
+Proof. vm_compute. repeat split. Qed.
+
+(* ---- a matching route exists -> the call is routed (C03_lookup_complete, carried over) ---- *)
+Lemma to_c03_keys t : ML.keys (to_c03 t) = map fst t.
+Proof. unfold ML.keys, to_c03. rewrite map_map. reflexivity. Qed.
+
+Lemma all_routes_to_c03 t k p id : In (k, p, id) (ML.all_routes (to_c03 t)) ->
+  exists rs ts, In (k, rs) t /\ In (p, ts) rs.
+Proof.
+  unfold ML.all_routes, to_c03. intros H. apply in_flat_map in H. destruct H as [[k' rs'] [H1 H2]].
+  apply in_map_iff in H1. destruct H1 as [[k0 rs] [E1 H1]]. inversion E1; subst. cbn [fst snd] in H2.
+  apply in_map_iff in H2. destruct H2 as [[p' id'] [E2 H2]]. inversion E2; subst.
+  apply in_map_iff in H2. destruct H2 as [[p0 ts] [E3 H2]]. inversion E3; subst.
+  exists rs, ts. tauto.
+Qed.
+
+Theorem lookup_complete t noglob host path c :
+  PL.wf_keys (to_c03 t) -> NoDup (map fst t) -> table_domain t = true ->
+  ML.F_C03_gobwas_overlap noglob false ML.MPrefix (to_c03 t) host path = false ->
+  In c (ML.all_routes (to_c03 t)) -> ML.is_candidate noglob false ML.MPrefix host path c = true ->
+  lookup t noglob host path <> None.
+Proof.
+  intros W Nd Dom G Hin Hc. unfold lookup.
+  assert (Nd' : NoDup (ML.keys (to_c03 t))) by (now rewrite to_c03_keys).
+  pose proof (PL.lookup_complete _ _ _ _ _ _ _ W Nd' Hin Hc) as L.
+  destruct (ML.lookup (to_c03 t) host false path ML.MPrefix noglob) as [[[k p] id]|] eqn:E; [|congruence].
+  destruct (PL.lookup_sound _ _ _ _ _ _ _ W G E) as [Hr _].
+  destruct (all_routes_to_c03 t k p id Hr) as [rs [ts [H1 H2]]].
+  unfold route_targets. rewrite (In_assoc_nodup k rs t Nd H1).
+  destruct (find (fun r : route => beq (fst r) p) rs) as [[p' ts']|] eqn:F.
+  - apply find_some in F. destruct F as [F1 _].
+    unfold table_domain in Dom. apply andb_true_iff in Dom. destruct Dom as [_ Dom].
+    rewrite forallb_forall in Dom. specialize (Dom _ H1). cbn [snd] in Dom.
+    rewrite forallb_forall in Dom. specialize (Dom _ F1). cbn [snd] in Dom.
+    destruct ts'; [discriminate | discriminate].
+  - exfalso. pose proof (find_none _ _ F _ H2) as X. cbn [fst] in X. rewrite beq_refl in X. discriminate.
+Qed.
+
+(* the hypotheses of [lookup_sound] / [lookup_complete] hold for a table with a glob key *)
+Example lookup_sound_nonvacuous :
+  PL.wf_keys (to_c03 ex_gtbl) /\ NoDup (map fst ex_gtbl) /\ table_domain ex_gtbl = true /\
+  ML.F_C03_gobwas_overlap false false ML.MPrefix (to_c03 ex_gtbl) (bs "X.Beta.Example:80") (bs "/pkg.Svc/Get") = false /\
+  lookup ex_gtbl false (bs "X.Beta.Example:80") (bs "/pkg.Svc/Get") = Some [ex_v] /\
+  In (bs "*.beta.example", bs "/pkg.Svc", 0) (ML.all_routes (to_c03 ex_gtbl)) /\
+  ML.is_candidate false false ML.MPrefix (bs "X.Beta.Example:80") (bs "/pkg.Svc/Get") (bs "*.beta.example", bs "/pkg.Svc", 0) = true.
+Proof.
+  split; [repeat constructor|]. split; [repeat constructor; cbn; intuition discriminate|].
+  split; [vm_compute; reflexivity|]. split; [vm_compute; reflexivity|]. split; [vm_compute; reflexivity|].
+  split; [cbn; now left | vm_compute; reflexivity].
+Qed.
+
+(* ---- F-C16-2: a grpcs:// target behind a listener without TLS is dialled in the clear ---- *)
+Definition ex_tls_tbl : table := [([], [(bs "/", [bs "grpcs://10.0.0.3:9443"])])].
+Definition ex_ci : callin :=
+  mkcallin [] (bs "/pkg.Svc/Get") (Some (bs "/pkg.Svc/Get")) [bs "x"] (mkscript 0 [] [bs "y"] [] 0 []).
+
+Theorem plaintext_listener_tls_backend_refuted :
+  lookup ex_tls_tbl false (dsthost (ci_md ex_ci)) (bs "/pkg.Svc/Get") = Some [bs "grpcs://10.0.0.3:9443"] /\
+  call_result false [] ex_tls_tbl false ex_ci 0 = (None, code_unavailable) /\
+  call_result true [] ex_tls_tbl false ex_ci 0 = (Some (bs "grpcs://10.0.0.3:9443"), 0).
+Proof. vm_compute. repeat split. Qed.
+
+(* outside that region (and with the backend up) a routed call reaches the picked target and
+   ends with the backend's status *)
+Theorem routed_call_reaches_backend tl down t ng ci p ts k u :
+  ci_upath ci = Some p -> lookup t ng (dsthost (ci_md ci)) p = Some ts -> nth_error ts k = Some u ->
+  mem u down = false -> plaintext_to_tls tl u = false ->
+  call_result tl down t ng ci k = (Some u, sc_code (ci_script ci)).
+Proof.
+  intros U L Nth D P. unfold call_result. rewrite (routed_call_relayed t ng ci p ts U L), Nth.
+  unfold unreachable. rewrite D, P. cbn [orb]. f_equal.
+  unfold relay. cbn [snd cv_code]. unfold final_status.
+  destruct (sc_code (ci_script ci) =? 0) eqn:E; [apply N.eqb_eq in E; now rewrite E | reflexivity].
 Qed.
